@@ -3,6 +3,7 @@
 //! sexp per line) and prints one observation per line. One file per sub-command.
 mod c04;
 mod c05;
+mod c03;
 mod c11;
 mod smoke;
 pub mod util;
@@ -12,6 +13,7 @@ fn main() {
     match which.as_str() {
         "c04" => vsexp::drive(c04::run),
         "c05" => vsexp::drive(c05::run),
+        "c03" => vsexp::drive(c03::run),
         "c11" => vsexp::drive(c11::run),
         "smoke" => vsexp::drive(smoke::run),
         other => {
